@@ -201,6 +201,45 @@ def harvested_rows():
     return rows
 
 
+def product_bound_rows():
+    """Moves whose products rate x T and accel x T^2 sit just below a magnitude at which an
+    evaluation in machine numbers stops being exact (2^52, 2^53: half-integers and integers of a
+    double; 2^63, 2^64: machine words) or below any large constant written in ebb_calc's own
+    source: rate = floor((B - 1) / T) and one less, accel small and odd or even, T odd and even
+    around every power of two and 3 x 2^k from 2^10 up."""
+    ebb_calc, _motion, _mp = _lib()
+    bounds = {1 << 52, 1 << 53, 1 << 63, 1 << 64} | \
+        set(core.harvest_ints(ebb_calc, low=1 << 33, high=1 << 70))
+    tick_counts = set()
+    for power in range(10, 32):
+        for base in (1 << power, 3 << (power - 1)):
+            tick_counts |= {base - 1, base, base + 1, base + 2 * power + 1}
+    for const in core.harvest_ints(ebb_calc, low=1 << 10, high=1 << 32):
+        tick_counts |= {const - 3, const - 2, const - 1, const, const + 1}
+    rows = []
+    for bound in sorted(bounds):
+        for ticks in sorted(t for t in tick_counts if 1 <= t < (1 << 32)):
+            for rate_mag in ((bound - 1) // ticks, (bound - 1) // ticks - 1):
+                if not 0 < rate_mag < TWO31:
+                    continue
+                for sign in (1, -1):
+                    for accel_mag in (0, 1, 2, 3):
+                        for accel_sign in (1, -1):
+                            rate, accel = sign * rate_mag, accel_sign * accel_mag
+                            if (accel == 0 and accel_sign < 0) or \
+                                    not lt_in_domain(rate, accel, ticks):
+                                continue
+                            for accum in (core.RUNTIME_CLEAR, 0, TWO31 - 1):
+                                rows.append((rate, accel, ticks, accum))
+            # ... and the acceleration's own product accel x T^2 just below the bound
+            accel_mag = (bound - 1) // (ticks * ticks)
+            for accel in (accel_mag, -accel_mag, accel_mag - 1, 1 - accel_mag):
+                for rate in (0, 1, -3):
+                    if accel and lt_in_domain(rate, accel, ticks):
+                        rows.append((rate, accel, ticks, core.RUNTIME_CLEAR))
+    return rows
+
+
 def _window_chunk(rows):
     part = core.Part()
     for rate, accel, ticks, accum in rows:
@@ -244,6 +283,7 @@ def run(ctx):
     part.merge(core.fan_out(ctx, _long_chunk, core.split(longs, 32)))
     part.merge(core.fan_out(ctx, _window_chunk, core.split(power_window_rows(), 32)))
     part.merge(core.fan_out(ctx, _window_chunk, core.split(harvested_rows(), 8)))
+    part.merge(core.fan_out(ctx, _window_chunk, core.split(product_bound_rows(), 32)))
     from .. import calcseq                 # pylint: disable=import-outside-toplevel
     part.merge(calcseq.explore(ctx, ['move_dist_lt']))
     from .. import callforms              # pylint: disable=import-outside-toplevel
